@@ -123,8 +123,14 @@ func c01FieldDefs(c *lib.Ctx, idx uint64) {
 	// the header's profile version varies with the pair: older than, equal to and newer than the library's own
 	pv := []uint16{2115, 21158, 2216, 100}[idx%4]
 	buf = append(buf, 14, 0x20, byte(pv), byte(pv>>8), 0, 0, 0, 0, '.', 'F', 'I', 'T', 0, 0)
-	buf = append(buf, 0x40, 0, 0, 0, 0, 1, 0, 1, 0) // def local 0: file_id, one field (0, size 1, enum)
-	buf = append(buf, 0x00, 4)                      // data: type = activity
+	// def local 0: file_id with type (0, size 1, enum) and manufacturer (1, size 2, uint16); data:
+	// type = activity, the manufacturer number varies with the pair (0..511 and 65535)
+	manu := uint16(idx % 513)
+	if manu == 512 {
+		manu = 0xFFFF
+	}
+	buf = append(buf, 0x40, 0, 0, 0, 0, 2, 0, 1, 0, 1, 2, 0x84)
+	buf = append(buf, 0x00, 4, byte(manu), byte(manu>>8))
 	prefix := len(buf)
 	accepted, rejected, nv := int64(0), int64(0), 0
 	var accByBase [256]int64
